@@ -54,7 +54,7 @@ fn alloc_one<const P: usize>(fl: &mut Freelist, st: &mut MemStore<P>) -> Option<
     match &*r { Ok(x) => Some(*x), Err(_) => None }
 }
 
-// @vt prop=C34 tier=quick feat=sp fs=600 bound="histories from the empty freelist: release a, release b, then allocate until empty (a, b arbitrary distinct pages of a 4-page store with arbitrary prior page contents)" outside="longer histories (see the inductive harnesses); more pages" timeout=900 mem=16
+// @vt prop=C34 tier=quick feat=sp fs=600 bound="histories from the empty freelist: release a, release b, then allocate until empty (a, b arbitrary distinct pages of a 4-page store with arbitrary prior page contents)" outside="longer histories (see the inductive harnesses); more pages" timeout=1800 mem=16
 vt_proof_fl! { unwind = 3; fn c34_release_two_then_drain() {
     let mut st = store();
     let mut fl = Freelist::new();
@@ -106,7 +106,7 @@ fn drain_chain(c0: usize, two: bool, c1: usize) {
     assert!(fl.free_count() == 0, "role=free_count_zero_after_drain");
 }
 
-// @vt prop=C34 tier=quick feat=sp fs=600 bound="drain of ANY valid single trunk with 0..=2 entries (arbitrary distinct entry page numbers)" outside="trunks with more than 2 entries in the drain (the full-trunk boundary is decided in c34_release_step)" timeout=1200 mem=16
+// @vt prop=C34 tier=quick feat=sp fs=600 bound="drain of ANY valid single trunk with 0..=2 entries (arbitrary distinct entry page numbers)" outside="trunks with more than 2 entries in the drain (the full-trunk boundary is decided in c34_release_step)" timeout=1800 mem=16
 vt_proof_fl! { unwind = 3; fn c34_drain_one_trunk() {
     let c0: usize = kani::any(); kani::assume(c0 <= 2);
     kani::cover!(c0 == 0, "w:single_empty_trunk");
@@ -154,9 +154,9 @@ fn release_step(c0: usize, p: u32) {
     }
 }
 
-// @vt prop=C34 tier=quick feat=sp fs=600 bound="one release + one allocate from ANY valid head trunk holding 0 or 1 entries, released page 2 / 3 with arbitrary prior contents" outside="other entry counts (the code path depends only on empty / has room / full)" timeout=1200 mem=16
+// @vt prop=C34 tier=quick feat=sp fs=600 bound="one release + one allocate from ANY valid head trunk holding 0 or 1 entries, released page 2 / 3 with arbitrary prior contents" outside="other entry counts (the code path depends only on empty / has room / full)" timeout=1800 mem=16
 vt_proof_fl! { unwind = 3; fn c34_release_step_small() { if kani::any() { release_step(0, 2) } else { release_step(1, 3) } kani::cover!(true, "w:reached_end"); }}
-// @vt prop=C34 tier=quick feat=sp fs=600 bound="one release + one allocate from ANY valid head trunk holding 121 entries (one slot left), released page 2" outside="-" timeout=1200 mem=16
+// @vt prop=C34 tier=quick feat=sp fs=600 bound="one release + one allocate from ANY valid head trunk holding 121 entries (one slot left), released page 2" outside="-" timeout=1800 mem=16
 vt_proof_fl! { unwind = 3; fn c34_release_step_last_slot() { release_step(TRUNK_MAX_ENTRIES - 1, 2); kani::cover!(true, "w:reached_end"); }}
-// @vt prop=C34 tier=quick feat=sp fs=600 bound="one release + one allocate from ANY valid FULL head trunk (122 entries): the released page (3, arbitrary prior contents) becomes the new head trunk" outside="-" timeout=1200 mem=16
+// @vt prop=C34 tier=quick feat=sp fs=600 bound="one release + one allocate from ANY valid FULL head trunk (122 entries): the released page (3, arbitrary prior contents) becomes the new head trunk" outside="-" timeout=1800 mem=16
 vt_proof_fl! { unwind = 3; fn c34_release_step_full_trunk() { release_step(TRUNK_MAX_ENTRIES, 3); kani::cover!(true, "w:full_trunk_boundary"); }}
